@@ -90,7 +90,7 @@ var protocolV2 = false  // committee scoped slashing with a per-block cap (proto
 
 func ledgerGenesis(big64, empty bool) GenesisSpec {
 	gs := GenesisSpec{Stakes: []uint64{1000000, 2, 2, 1, 0, 0}, Accounts: 3, Balance: 100000,
-		Committees: [][]uint64{{1}, {2, 1}, {1}, {1, 2}, nil, nil},
+		Committees: [][]uint64{{1, 2, 3}, {2, 1}, {1}, {1, 2}, nil, nil}, // the heavy validator makes committees 2 and 3 subsidized too
 		Params: func(p *fsm.Params) {
 			p.Validator.UnstakingBlocks = 3
 			p.Validator.DelegateUnstakingBlocks = 2
@@ -102,6 +102,7 @@ func ledgerGenesis(big64, empty bool) GenesisSpec {
 			p.Validator.MaxSlashPerCommittee = 100
 			p.Validator.MinimumStakeForValidators = 0
 			p.Validator.MaxCommittees = 3
+			p.Validator.StakePercentForSubsidizedCommittee = 1 // committees 2 and 3 qualify as soon as somebody with weight stakes for them
 			p.Validator.MaxCommitteeSize = 3
 			p.Validator.MaximumDelegatesPerCommittee = 2
 			p.Fee.SendFee, p.Fee.StakeFee, p.Fee.EditStakeFee, p.Fee.UnstakeFee, p.Fee.PauseFee, p.Fee.UnpauseFee = 100, 100, 100, 100, 100, 100
@@ -137,9 +138,9 @@ func newLedgerSim(run int, out *json.Encoder, big64, empty bool) (*ledgerSim, er
 	if err != nil {
 		return nil, err
 	}
-	n.c.FSM.Config.InitialTokensPerBlock = 1000
+	n.c.FSM.Config.InitialTokensPerBlock = 1003 // not divisible by the number of subsidized committees after the DAO cut
 	n.c.FSM.Config.BlocksPerHalvening = 10
-	n.c.Config.InitialTokensPerBlock = 1000
+	n.c.Config.InitialTokensPerBlock = 1003
 	n.c.Config.BlocksPerHalvening = 10
 	if big64 {
 		n.c.FSM.Config.InitialTokensPerBlock = 1 << 58
